@@ -88,6 +88,7 @@ class Run:
         self.chooser = chooser
         self.racy = racy              # monitor-only scenario (not compared with the model)
         self.stuck: list[int] = []    # callers that never finished although every function was told to finish
+        self.current_op = None
         self.strict = False           # replay: refuse ops that are not enabled (used while shrinking)
         self.finish_all = True        # after a replayed script, finish every pending call through further ops
         self.enabled_at_end = []
@@ -358,6 +359,7 @@ class Run:
         if self.strict and (code, a, b) not in {(x[0], x[1], x[2]) for x in self.enabled()}:
             raise Hang(f"op {(OPN.get(code), a, b)} is not enabled here")
         rc, rv = 5, 0
+        self.current_op = (code, a, b, d)
         if code == 0:
             self.shields.setdefault(a, []).insert(0, bool(b))
             self.cc.setdefault(a, []).insert(0, False)
@@ -602,8 +604,11 @@ class Run:
         return [self.total if self.total else DEFAULT_TOTAL, 1 if self.prune else 0, self.ncalls, 1] + self.ops
 
     def replay(self):
-        return {"total": self.total, "prune": self.prune, "uvloop": self.uv, "ncalls": self.ncalls, "ops": self.ops,
-                "ops_readable": readable(self.ops)}
+        d = {"total": self.total, "prune": self.prune, "uvloop": self.uv, "ncalls": self.ncalls, "ops": self.ops,
+             "ops_readable": readable(self.ops)}
+        if self.hang and self.current_op:
+            d["hanging_op"] = readable(list(self.current_op))
+        return d
 
 
 # ---------------------------------------------------------------------------------------------------
